@@ -503,9 +503,9 @@ Definition rflag (fk fv fr fm ft : bool) (n : Z) : bool :=
    the model's [coord] is  off + gran*v  in int64 (the float factor is applied outside, C01 / CoordFloat),
    [ts_ns] is  (v * date_granularity) * 1000000 ns  in int64 *)
 Definition expected_formulas : list (string * string * string) :=
-  [ ("extractDenseNodes", "Node.Timestamp", "time.Unix(0, [time.Duration(v * GetDateGranularity) * time.Millisecond].Nanoseconds()).UTC()");
-    ("extractDenseNodes", "Node.Lat", "1e-9 * float64(GetLatOffset + (GetGranularity * v))");
-    ("extractDenseNodes", "Node.Lon", "1e-9 * float64(GetLonOffset + (GetGranularity * v))");
+  [ ("scanDenseNodes", "Node.Timestamp", "time.Unix(0, [time.Duration(v * GetDateGranularity) * time.Millisecond].Nanoseconds()).UTC()");
+    ("scanDenseNodes", "Node.Lat", "1e-9 * float64(GetLatOffset + (GetGranularity * v))");
+    ("scanDenseNodes", "Node.Lon", "1e-9 * float64(GetLonOffset + (GetGranularity * v))");
     ("scanRelations", "Relation.Timestamp", "time.Unix(0, [time.Duration(v * GetDateGranularity) * time.Millisecond].Nanoseconds()).UTC()");
     ("scanWays", "Way.Timestamp", "time.Unix(0, [time.Duration(v * GetDateGranularity) * time.Millisecond].Nanoseconds()).UTC()");
     ("scanWays", "Way.Nodes.Lat", "1e-9 * float64(GetLatOffset + (GetGranularity * v))");
